@@ -102,6 +102,6 @@ def step (m : Mode) (st : St) : Ev → St
 def run (m : Mode) (st : St) (evs : List Ev) : St := evs.foldl (step m) st
 
 /-- The mode that mirrors /repo as it is. -/
-def codeMode : Mode := .ptr
+def codeMode : Mode := .stamped
 
 end LunarVerif.C14.Reload
